@@ -1,6 +1,8 @@
 """C04 - sector bookkeeping stays a consistent partition of the miner's sectors (narrow clauses)."""
 from core import *
 from rules import *
+import provtable
+from props.provspecs import SPECS
 
 LEVEL = 'other'
 LEVEL_TEXT = ('Narrow structural clauses over the miner actor\'s MIR: sector numbers are allocated at most once (the allocation bitmap has one writer that '
@@ -135,3 +137,7 @@ def run(prog, rep, tier, cfg):
         for u in ups:
             rep.need('K10', 'deadline-index:%s:stores-loaded' % nm, has_atom(prog.slicer.operand(f, u.args[4]), 'C:Deadlines::load_deadline'), 'the stored deadline is the loaded one', u.where)
     rep.floor('K10', 'deadline_load_update_pairs', n, 12)
+
+    # ---- frozen provenance table of the partition / deadline / expiration-queue summaries (tables/prov_miner_partition.json)
+    n = provtable.check(X, 'K10', 'summary', SPECS['miner_partition'], provtable.load_table('prov_miner_partition.json'), only_keys=None)
+    rep.floor('K10', 'summary_update_sites', n, 200)
